@@ -22,9 +22,10 @@ echo "-- demo WITH change (expect fail)"; (cd $WT && timeout 600 bash -c "$RUNCM
 rm -f $WT/$PKGDIR/zz_demo${N}_test.go
 echo "-- existing tests (whole suite) with change"; (cd $WT && go test -vet=off -count=1 ./... 2>&1 | grep -v "^ok\|no test files" | tail -5; echo "suite-exit=$?")
 git -C $WT checkout -q -- . ; git -C $WT clean -fdq
-echo "== applying to /repo and running checks: $CHECKS"
-git -C /repo apply $P || { echo "does not apply to /repo HEAD"; exit 2; }
+git -C /repo apply --check $P || { echo "does not apply to /repo HEAD"; exit 2; }
+echo "== running checks against the scratch worktree with the change applied (VERIF_REPO=$WT; same HEAD as /repo): $CHECKS"
+git -C $WT apply $P
 for c in $CHECKS; do
-  echo "-- ./check $c --tier quick"; (cd /verif && timeout 1500 ./check $c --tier quick 2>&1 | grep -E "^VIOLATION|^  class=|KNOWN|MACHINERY|tier=" | head -8; echo "rc=${PIPESTATUS[0]}")
+  echo "-- ./check $c --tier quick"; (cd /verif && VERIF_REPO=$WT VERIF_EVIDENCE_DIR=$OUT/evidence timeout 1500 ./check $c --tier quick 2>&1 | grep -E "^VIOLATION|^  class=|KNOWN|MACHINERY|tier=" | head -8; echo "rc=${PIPESTATUS[0]}")
 done
-git -C /repo checkout -- . ; git -C /repo status --short
+git -C $WT checkout -q -- . ; git -C $WT clean -fdq
